@@ -426,7 +426,7 @@ theorem C20_stretch_dtype_cast (dt : DT) (hb : dt.isBool = false) (xs : List Rat
 
 /-- **C20 (`dtype=bool`).** For a request inside the bool range (`0 ≤ lo ≤ hi ≤ 1`) the call over ℚ is `map G` with `G`
 non-decreasing, every pixel in `[lo, hi]`, minimal pixels ↦ `lo`. `astype(bool)` is "non-zero", not truncation: with
-`(lo, hi) = (0, 1)` the minimal pixels are `False` and every other pixel is `True`. (On the tree before `f50c0e7`
+`(lo, hi) = (0, 1)` the minimal pixels are `False` and every other pixel is `True`. (On the tree before `3e5c576`
 the real code raised for constant images with `lo = 1`.) -/
 theorem C20_stretch_bool (xs : List Rat) (arg0 arg1 : Option Int) (lo hi : Int) (hd : decodeArgs arg0 arg1 = (lo, hi))
     (h : lo ≤ hi) (h0 : 0 ≤ lo) (h1 : hi ≤ 1) :
@@ -572,7 +572,7 @@ every integer dtype the reduction is the identity wherever the truncated value l
 XYZ in `[0, 1.09]`, L* in `[0, 100]`, a*, b* in `[−128, 127]` for `int8` and wider, round-tripped RGB in `[0, 255]` for
 `uint8` and wider. (The harness checks the other half on the real code for 9 input dtypes × 12 requests: integer
 input ≡ `astype(float64)` input bit for bit; `f(x, dtype=d) ≡ f(x).astype(d)`; the requested dtype is returned —
-which `xyz2rgb` did not do before `8e49120`.) -/
+which `xyz2rgb` did not do before `cdb5840`.) -/
 theorem C20_dtype_handling (rgb : List Int) (dt : DT) (v : List Float) :
     rgb2xyzInt rgb = rgb2xyzSpec (rgb.map Float.ofInt) ∧ rgb2labInt rgb = rgb2labSpec (rgb.map Float.ofInt) ∧
     roundTripInt rgb = xyz2rgbSpec (rgb2xyzSpec (rgb.map Float.ofInt)) ∧
